@@ -114,7 +114,11 @@ EXPLANATION = "Partial claim: the cancel/force mechanism at node and tracking le
 
 
 def replay(obligation, witness):
-    """Native oracle for the node-level laws: real WatchNode / AlarmNode objects in every flag combination."""
+    """Native oracle: node-level laws on real WatchNode / AlarmNode objects in every flag combination; command items on the real engine."""
+    if "CommandManager." in obligation:
+        import contracts.c12_native as n
+        r = n.request_for_a_completed_command_item("force" if "force_instruction" in obligation else "cancel")
+        return {"confirmed": bool(r["violated"]), **r}
     import itertools
     import openpectus.lang.model.ast as p
     for cls in (p.WatchNode, p.AlarmNode):
@@ -140,3 +144,80 @@ def replay(obligation, witness):
 
 
 REPLAY_WITHOUT_WITNESS = True
+
+
+# ---- (d) command items: CommandManager.cancel_instruction / force_instruction -----------------------------------------------------------
+# A run-log item of a UOD command is offered as cancellable / forcible only until it carries a conclusive state, i.e. until the command has
+# completed, failed (cleaned up: cancelled + finalized) or been cancelled. A request for such an item must be rejected and change nothing.
+import z3 as _z3                                   # noqa: E402
+from pyvc.smt import BV as _BV                     # noqa: E402
+CMg = "openpectus.engine.command_manager:CommandManager."
+ENDED = "(command._exec_complete or command._cancelled or command._finalized)"
+
+
+def _ended(ctx):
+    cmd = ctx.ghost.get("cmd")
+    if cmd is None:
+        return _z3.BoolVal(False)
+    rd = lambda f: _BV(ctx.st.read(f, ctx.rid(cmd)))
+    h0 = ctx.ex.top_frame.entry_heap
+    from pyvc.smt import field_sort
+    rd0 = lambda f: _BV(_z3.Select(h0.get(f, _z3.Const("H0!" + f, field_sort(f))), ctx.rid(cmd)))
+    return _z3.Or(rd0("_exec_complete"), rd0("_cancelled"), rd0("_finalized"))
+
+
+def get_command(ctx, args, kwargs):
+    """Tracking.get_command(instance_id): the command object of that run-log item, or None for a plain instruction node"""
+    if ctx.choose(2, "item is a command") == 1:
+        return ctx.none()
+    cmd = ctx.fresh("command", "EngineCommand")      # the life-cycle flags and their getters live in EngineCommand
+    ctx.ex.assume_type(cmd.term, cmd.ty, ctx.fr)
+    ctx.ghost["cmd"] = cmd
+    return cmd
+
+
+def effect(label):
+    def h(ctx, args, kwargs):
+        ctx.check_w(f"a-command-item-that-already-ended-is-left-alone[{label}]", _z3.Not(_ended(ctx)), lambda m: {"effect": label}, "call-site")
+        return ctx.fresh("opaque", None)
+    h.modifies = []
+    h.__doc__ = f"{label}: an effect of accepting the request (recorded; must not happen for an item that is no longer offered)"
+    return h
+
+
+def truth(ctx, args, kwargs):
+    """Tracking.has_instance_id(id): True (the item exists; unknown ids are rejected before anything else)"""
+    from pyvc.smt import mk_bool
+    from pyvc.state import SV
+    from pyvc.repo import Ty
+    return SV(mk_bool(True), Ty("bool"))
+
+
+for _h in (get_command, truth):
+    _h.modifies = []
+GT_TYPES = {"self": "CommandManager", "instance_id": "str", "EngineCommand._exec_complete": "bool", "EngineCommand._cancelled": "bool",
+            "EngineCommand._finalized": "bool", "CommandManager.in_executing_loop": "bool", "command": "EngineCommand"}
+GCALLS = {"self.tracking.has_instance_id": truth, "self.tracking.get_command": get_command, "self.tracking.get_record_by_instance_id": opaque("record", "RuntimeRecord"),
+          "self.tracking.get_known_node_by_id": opaque("node", "Node"), "self._get_executing_command_request": opaque("request", "CommandRequest | None"),
+          "self._cancel_command": effect("cancel the executing request"), "command.cancel": effect("command.cancel()"),
+          "command.finalize": effect("command.finalize()"), "command.force": effect("command.force()"),
+          "self.tracking.mark_cancelled": effect("tracking state Cancelled"), "self.tracking.mark_forced": effect("tracking state Forced"),
+          "self._commit_commands_done": opaque("none")}
+cm_cancel = Contract(target=CMg + "cancel_instruction", types=GT_TYPES, calls=GCALLS, raises=None, requires=["not self.in_executing_loop"],
+                     options={"lenient": True, "protected_prefixes": (), "opaque_subscript": True})
+cm_force = Contract(target=CMg + "force_instruction", types=GT_TYPES, calls=GCALLS, raises=None, requires=["not self.in_executing_loop"],
+                    options={"lenient": True, "protected_prefixes": (), "opaque_subscript": True})
+CONTRACTS = CONTRACTS + [cm_cancel, cm_force]
+TARGETS = TARGETS + [cm_cancel.key, cm_force.key]
+
+
+def _natc(kind):
+    def run():
+        import contracts.c12_native as n
+        r = n.request_for_a_completed_command_item(kind)
+        return {"ok": not r["violated"], "observation": r}
+    return run
+
+
+NATIVE = [("native:cancel-of-a-completed-command-item-is-rejected", _natc("cancel")), ("native:force-of-a-completed-command-item-is-rejected", _natc("force"))]
+BOUNDED = ["two native scenarios on the real engine (request for a completed UOD command item): bounded, not counted"]
